@@ -10,6 +10,7 @@ nothing in /repo is touched.
 * tqdm's monitor thread (the only thread in a graphtage process) is disabled, not simulated.
 """
 import io
+import os
 import sys
 
 import tqdm as _tqdm_pkg
@@ -109,10 +110,63 @@ class SimClock:
         return self.now
 
 
+class _RawWriter:
+    """`stream.buffer`: the binary layer of a simulated standard stream."""
+
+    def __init__(self, owner):
+        self._owner = owner
+
+    def write(self, b):
+        return self._owner._write_bytes(bytes(b))
+
+    def flush(self):
+        return None
+
+    def fileno(self):
+        return self._owner.fileno()
+
+    def writable(self):
+        return True
+
+    def isatty(self):
+        return self._owner.isatty()
+
+
 class SimStream(io.TextIOBase):
-    """A text stream with the full TextIO surface (writelines, context manager, iteration ... come from
-    io.TextIOBase, so that code which writes the same bytes through a different method still works)."""
+    """A simulated standard stream backed by a REAL, private file descriptor (memfd / unlinked temp file, one per
+    process).  Everything that reaches the stream - write(), writelines(), print(), `.buffer.write()`, and even
+    `os.write(stream.fileno(), ...)` - lands in the same byte sequence in order, which is what the checks read back.
+    The descriptor is what `fileno()` answers, for stdout and stderr alike, so graphtage's StatusWriter still takes
+    its production path (buffered, through tqdm.write: it compares `out_stream.fileno()` with `sys.stdout.fileno()`).
+    close() is a no-op because main() closes its stdout.  Can raise at the n-th write (cancellation / fault)."""
     mode = "w"
+
+    def __init__(self, fd, name):
+        super().__init__()
+        self.label = fd              # 1 = stdout, 2 = stderr (a label only; the descriptor is private)
+        self.name = name
+        self.tty = False
+        self.nwrites = 0
+        self.close_calls = 0
+        self.cancel = NO_CANCEL
+        self.fail_at = None          # [n, exception]: raise at the n-th write from now
+        self._fd = None
+        self._pid = None
+        self._errors = "strict"
+        self.buffer = _RawWriter(self)
+
+    # -- the descriptor (re-created after fork: workers must not share one file)
+    def _ensure(self):
+        if self._pid != os.getpid():
+            try:
+                self._fd = os.memfd_create(f"gsim-{self.name}")
+            except (AttributeError, OSError):
+                import tempfile
+                f = tempfile.TemporaryFile()
+                self._fd = os.dup(f.fileno())
+                f.close()
+            self._pid = os.getpid()
+        return self._fd
 
     @property
     def encoding(self):
@@ -120,23 +174,21 @@ class SimStream(io.TextIOBase):
 
     @property
     def errors(self):
-        return "strict"
+        return self._errors
 
     @property
     def closed(self):
         return False
 
-    def __init__(self, fd, name):
-        super().__init__()
-        self.fd = fd
-        self.name = name
-        self.tty = False
-        self.chunks = []
-        self.nwrites = 0
-        self.close_calls = 0
-        self.cancel = NO_CANCEL
-        self.fail_at = None      # (n, exception) raise at the n-th write from now
-        self.events = []
+    def reconfigure(self, *, encoding=None, errors=None, newline=None, line_buffering=None, write_through=None):
+        if errors is not None:
+            self._errors = errors
+
+    def _write_bytes(self, b):
+        fd = self._ensure()
+        os.lseek(fd, 0, os.SEEK_END)
+        os.write(fd, b)
+        return len(b)
 
     def write(self, s):
         if not isinstance(s, str):
@@ -150,7 +202,7 @@ class SimStream(io.TextIOBase):
                 exc = self.fail_at[1]
                 self.fail_at = None
                 raise exc
-        self.chunks.append(s)
+        self._write_bytes(s.encode("utf-8", self._errors))
         return len(s)
 
     def flush(self):
@@ -160,7 +212,7 @@ class SimStream(io.TextIOBase):
         return self.tty
 
     def fileno(self):
-        return self.fd
+        return self._ensure()
 
     def close(self):
         self.close_calls += 1     # main() closes its stdout; a second call in the same process must still work
@@ -177,14 +229,49 @@ class SimStream(io.TextIOBase):
     def seekable(self):
         return False
 
+    # -- what the checks read back
     def mark(self):
-        return len(self.chunks)
+        return os.fstat(self._ensure()).st_size
 
     def since(self, mark):
-        return "".join(self.chunks[mark:])
+        fd = self._ensure()
+        size = os.fstat(fd).st_size
+        if size <= mark:
+            return ""
+        return os.pread(fd, size - mark, mark).decode("utf-8", "replace")
 
     def drop(self):
-        del self.chunks[:]
+        fd = self._ensure()
+        os.ftruncate(fd, 0)
+        os.lseek(fd, 0, os.SEEK_SET)
+
+
+def run_command(argv):
+    """`python -m graphtage <args>`, in-process: executes graphtage/__main__.py the way `-m` does (runpy, sys.argv set,
+    `__name__ == "__main__"`), so that no assumption is made about where `main` lives or how it is called.
+    Returns (exit_status, text_python_would_print_to_stderr, escaped_exception)."""
+    import runpy
+    old = sys.argv
+    sys.argv = list(argv)
+    try:
+        try:
+            runpy.run_module("graphtage", run_name="__main__", alter_sys=False)
+            ret = None                     # fell off the end of the module: exit status 0
+        finally:
+            sys.argv = old
+    except SystemExit as e:
+        ret = e.code
+    except BaseException as e:             # noqa: an uncaught exception: Python prints a traceback and exits 1
+        from .core import RunTimeout
+        if isinstance(e, RunTimeout):
+            raise
+        return 1, "", e
+    # sys.exit() semantics: None -> 0, int -> that status, anything else is printed to stderr and the status is 1
+    if ret is None:
+        return 0, "", None
+    if isinstance(ret, int):
+        return ret & 0xFF, "", None
+    return 1, str(ret) + "\n", None
 
 
 class Seams:
